@@ -142,6 +142,15 @@ func renderSched(d schedCase) string {
 				default:
 					if d.Barrier > 0 {
 						fmt.Fprintf(&b, "      - cmd: 'printf B; exit %d'\n", c.Code)
+					} else if c.Code >= 1000 {
+						// flaky command (model: Sched.altRes): within one invocation the first execution exits n and
+						// every later one 0 (code 1000+n), or the other way round (2000+n); mkdir is the atomic test-and-set
+						first, later := c.Code%1000, 0
+						if c.Code >= 2000 {
+							first, later = 0, c.Code%1000
+						}
+						flakyNo++
+						fmt.Fprintf(&b, "      - cmd: ': \"V={{.V}}\"; if mkdir .flaky%d 2>/dev/null; then exit %d; else exit %d; fi'\n", flakyNo, first, later)
 					} else {
 						fmt.Fprintf(&b, "      - cmd: ': \"V={{.V}}\"; exit %d'\n", c.Code)
 					}
@@ -154,6 +163,8 @@ func renderSched(d schedCase) string {
 	}
 	return b.String()
 }
+
+var flakyNo int
 
 func resTok(cls string) string {
 	switch {
@@ -549,6 +560,60 @@ func (c *Ctx) genBarrier() schedCase {
 	return d
 }
 
+// genFlaky: a task with deferred commands whose own command is flaky (fails on its first
+// execution only, or on every execution but the first) is executed several times in one
+// invocation by callers that tolerate the failure: the activations of ONE task definition
+// have different outcomes, so whatever a deferred command sees (EXIT_CODE) must be the
+// activation's own.
+func (c *Ctx) genFlaky() schedCase {
+	r := c.Rng
+	d := schedCase{Cap: []int{0, 0, 1, 2}[r.Intn(4)], Jitter: []int64{0, 0, 200}[r.Intn(3)], Seed: r.Int63(), Calls: []int{0}}
+	mk := func() sTask {
+		return sTask{Run: "always", PlatformOk: true, RequiresOk: true, EnumOk: true, PrecondOk: true}
+	}
+	code := 1 + r.Intn(9)
+	fl := 1000 + code
+	if r.Intn(2) == 0 {
+		fl = 2000 + code
+	}
+	// t1: the flaky task with defers
+	t1 := mk()
+	if r.Intn(3) == 0 {
+		t1.Cmds = append(t1.Cmds, sCmd{Call: -1, Var: -1, Deferred: true})
+	}
+	t1.Cmds = append(t1.Cmds, sCmd{Call: -1, Var: -1, Deferred: true})
+	if r.Intn(2) == 0 {
+		t1.Cmds = append(t1.Cmds, sCmd{Call: -1, Var: -1})
+	}
+	t1.Cmds = append(t1.Cmds, sCmd{Call: -1, Var: -1, Code: fl})
+	if r.Intn(2) == 0 {
+		t1.Cmds = append(t1.Cmds, sCmd{Call: -1, Var: -1, Deferred: true})
+	}
+	// t0: calls t1 k times, tolerating its failure
+	t0 := mk()
+	t0.IgnoreError = true
+	k := 2 + r.Intn(3)
+	for i := 0; i < k; i++ {
+		if r.Intn(4) == 0 {
+			t0.Cmds = append(t0.Cmds, sCmd{Call: -1, Var: -1})
+		}
+		t0.Cmds = append(t0.Cmds, sCmd{Call: 1, Var: -1})
+	}
+	d.Tasks = []sTask{t0, t1}
+	if r.Intn(3) == 0 {
+		// a second tolerant caller running concurrently with the first
+		t2 := mk()
+		t2.IgnoreError = true
+		t2.Cmds = []sCmd{{Call: 1, Var: -1}, {Call: 1, Var: -1}}
+		d.Tasks = append(d.Tasks, t2)
+		t3 := mk()
+		t3.Deps = []sDep{{0, -1}, {2, -1}}
+		d.Tasks = append(d.Tasks, t3)
+		d.Calls = []int{3}
+	}
+	return d
+}
+
 func hasCycleThroughDedup(d schedCase) bool {
 	// is there a cycle in the call graph containing a once/when_changed task?
 	n := len(d.Tasks)
@@ -617,6 +682,9 @@ func runSched(c *Ctx) {
 		} else if i%25 == 7 {
 			d = c.genBarrier()
 			c.Hit("barrier")
+		} else if i%20 == 3 {
+			d = c.genFlaky()
+			c.Hit("flaky-defer")
 		} else {
 			d = c.genSched(c.Pick(7, 10), false)
 		}
